@@ -4,7 +4,8 @@
 //!   * PUBLISH QoS 0/1/2 carrying zero, one or several subscription identifiers (known, unknown, of a dropped stream),
 //!   * re-sent QoS 2 PUBLISHes (DUP=1, same identifier, before their PUBREL),
 //!   * PUBREL for unreleased and for unknown identifiers;
-//! streams are subscribed, and dropped, along the way.  A reference model says after every batch exactly which
+//! streams are subscribed, and dropped, along the way, and the client runs complete outbound QoS 2 exchanges of its own whose
+//! identifiers the broker deliberately also uses for inbound messages (the two identifier spaces are independent).  A reference model says after every batch exactly which
 //! acknowledgements must have been written (one per PUBLISH QoS>0 / PUBREL, right type, right identifier, in order) and which
 //! payloads every stream must yield (each message once per stream it is addressed to, in order, intact; a re-sent QoS 2
 //! message not again until its PUBREL).
@@ -40,6 +41,9 @@ struct World {
     /// inbound QoS 2 identifiers received and not yet released, with the message they carried
     unreleased: Vec<(u16, Vec<u8>, Vec<u32>)>,
     next_pkt_id: u16,
+    /// the identifier the client's next outbound QoS>0 publish will probably carry (inbound and outbound identifiers are
+    /// independent spaces: the broker is free to use the same numbers)
+    out_next: u16,
     counter: u32,
     trace: Vec<String>,
 }
@@ -124,6 +128,10 @@ impl World {
                     let id = if qos > 0 {
                         // the broker never reuses an identifier it has not released
                         loop {
+                            if rng.below(2) == 0 && !self.unreleased.iter().any(|u| u.0 == self.out_next) {
+                                self.next_pkt_id = self.out_next; // collide with the client's own identifier space on purpose
+                                break;
+                            }
                             self.next_pkt_id = self.next_pkt_id % 40 + 1;
                             if !self.unreleased.iter().any(|u| u.0 == self.next_pkt_id) {
                                 break;
@@ -197,6 +205,33 @@ impl World {
         }
     }
 
+    /// a complete OUTBOUND QoS 2 exchange of the client (PUBLISH, PUBREC, PUBREL, PUBCOMP): must not touch anything inbound
+    fn outbound_qos2(&mut self) {
+        let mut h = self.b.handle.clone();
+        let r = self.b.exec.spawn(async move { errstr(h.publish(PublishOpts::new().topic_name("t").qos(QoS::ExactlyOnce).payload(b"o")).await) });
+        self.b.exec.settle();
+        let w = self.b.written();
+        if w.len() != 1 || w[0][0] != 0x34 {
+            self.fail(format!("outbound QoS 2 publish must write one PUBLISH, wrote {:02x?}", w));
+        }
+        let id = u16::from_be_bytes([w[0][5], w[0][6]]);
+        self.trace.push(format!("client publishes QoS 2 with id {} and the exchange completes", id));
+        self.b.feed(&ack(0x50, id, None));
+        let w = self.b.written();
+        if w.len() != 1 || w[0][0] != 0x62 || u16::from_be_bytes([w[0][2], w[0][3]]) != id {
+            self.fail(format!("PUBREC must be answered by one PUBREL with id {}, wrote {:02x?}", id, w));
+        }
+        self.b.feed(&ack(0x70, id, None));
+        let w = self.b.written();
+        if !w.is_empty() {
+            self.fail(format!("PUBCOMP made the client write {:02x?}", w));
+        }
+        if *r.borrow() != Some(Ok(())) {
+            self.fail(format!("outbound QoS 2 publish ended with {:?}", r.borrow()));
+        }
+        self.out_next = if id == u16::MAX { 1 } else { id + 1 };
+    }
+
     fn drain(&mut self, k: usize) {
         let waker = futures::task::noop_waker();
         let mut cx = std::task::Context::from_waker(&waker);
@@ -220,7 +255,7 @@ impl World {
     fn history(seed: u64, steps: usize) {
         let mut rng = Rng(seed.wrapping_mul(0x9e3779b97f4a7c15) | 1);
         let b = Bench::connected(&[]);
-        let mut w = World { b, subs: vec![], unreleased: vec![], next_pkt_id: 0, counter: 0, trace: vec![] };
+        let mut w = World { b, subs: vec![], unreleased: vec![], next_pkt_id: 0, out_next: 1, counter: 0, trace: vec![] };
         w.subscribe();
         for _ in 0..steps {
             match rng.below(12) {
@@ -237,6 +272,7 @@ impl World {
                         w.trace.push(format!("drop stream of sid {}", w.subs[k].sid));
                     }
                 }
+                3 => w.outbound_qos2(),
                 _ => w.batch(&mut rng),
             }
         }
